@@ -107,19 +107,31 @@ def _fix(c):
     return c
 
 
+EAGER_ITER = [n for n in ('hashjoin', 'hashleftjoin', 'hashrightjoin')
+              if n in RECIPES]
+
+
 def gen_case(rng, tier, g):
     r = rng.random()
     if r < 0.12:
         return _gen_bytes(rng, tier, g)
+    eager = False
     if r < 0.30:
         name = rng.choice(NONSTREAM_NAMES)
+    elif r < 0.38:
+        # views whose iter() already reads (the hash joins load their build
+        # side there): whatever is stacked on top of them must not call
+        # iter() - or len(), bool(), repr() - on its input when constructed
+        name = rng.choice(EAGER_ITER)
+        eager = True
     else:
         name = STREAM_NAMES[g % len(STREAM_NAMES)] if rng.random() < 0.6 \
             else rng.choice(STREAM_NAMES)
     rec = RECIPES[name]
     stack = [[name, rng.randrange(len(rec.variants))]]
     if rec.stream and not rec.items and not rec.multi \
-            and rec.profile != 'biggroups' and rng.random() < 0.3:
+            and rec.profile != 'biggroups' \
+            and rng.random() < (0.95 if eager else 0.3):
         # (not on the big-groups source: its rows depend on its length, so
         # the two lengths of a case do not share a prefix a filter could be
         # compared on)
